@@ -223,6 +223,10 @@ func simpleBlock(blk *hist.Block) []Finding {
 			if _, isContract := blk.Prev["keeper_"+rawOf(t.Meta["to"])]; isContract && keeperHasCode(blk.Prev, rawOf(t.Meta["to"])) {
 				return nil
 			}
+			if strings.HasPrefix(strings.TrimPrefix(t.Meta["to"], "0lt"), "00000000000000000000000000000000000000") {
+				// a precompiled contract: code runs there as well (and may fail)
+				return nil
+			}
 			v := bigOf(t.Meta["value"])
 			addTo(want, t.Meta["from"], new(big.Int).Neg(new(big.Int).Add(v, txFee(t))))
 			addTo(want, t.Meta["to"], v)
